@@ -289,10 +289,11 @@ macro_rules! rotr_128 {
     ($name:ident, $i:expr) => {
         #[inline(always)]
         fn $name(self) -> Self {
+            // $i < 64: each 64-bit half keeps its own high bits and receives the low bits of the other half
             Self::new(unsafe {
                 _mm_or_si128(
-                    _mm_srli_si128(self.x, $i as i32),
-                    _mm_slli_si128(self.x, 128 - $i as i32),
+                    _mm_srli_epi64(self.x, $i as i32),
+                    _mm_slli_epi64(_mm_shuffle_epi32(self.x, 0b0100_1110), 64 - $i as i32),
                 )
             })
         }
